@@ -207,6 +207,16 @@ func (f *fx) run(st *State, reach Term) {
 		f.in[b] = make([]*edge, len(b.Preds))
 	}
 	order := f.topo()
+	// defers are collected statically (in topological order of their blocks): a return block may be
+	// processed before the loop body that contains the defer statement
+	f.defers = nil
+	for _, b := range order {
+		for _, in := range b.Instrs {
+			if d, ok := in.(*ssa.Defer); ok {
+				f.defers = append(f.defers, &deferRec{instr: d, key: f.deferKey(d), ord: len(f.defers)})
+			}
+		}
+	}
 	entryEdge := &edge{cond: reach, state: st}
 	for _, b := range order {
 		if b == f.fn.Recover {
@@ -299,6 +309,9 @@ func (f *fx) loopModKeys(li *loopInfo) (keys map[string]bool, all bool) {
 			case *ssa.Defer:
 				keys[f.deferKey(x)] = true
 			case ssa.CallInstruction:
+				if k := f.ncallsKey(x); k != "" {
+					keys[k] = true
+				}
 				ks, a := f.callModKeys(x)
 				if a {
 					all = true
@@ -310,6 +323,24 @@ func (f *fx) loopModKeys(li *loopInfo) (keys map[string]bool, all bool) {
 		}
 	}
 	return
+}
+
+func (f *fx) ncallsKey(ci ssa.CallInstruction) string {
+	c := ci.Common()
+	if _, ok := c.Value.(*ssa.Builtin); ok {
+		return ""
+	}
+	var key string
+	if c.IsInvoke() {
+		key = "(" + typeKeyString(c.Value.Type()) + ")." + c.Method.Name()
+	} else if sf := c.StaticCallee(); sf != nil {
+		key = fnKey(sf)
+	} else {
+		return ""
+	}
+	k := "E:ncalls:" + key
+	f.regKey(k, "Int")
+	return k
 }
 
 func (f *fx) enterLoop(li *loopInfo, edges []*edge) {
@@ -365,6 +396,7 @@ func (f *fx) enterLoop(li *loopInfo, edges []*edge) {
 	if all {
 		f.cur = f.havocAll(f.cur)
 	}
+	var loopKeys []string
 	for k := range keys {
 		if _, ok := f.e.keySorts[k]; !ok {
 			continue
@@ -376,9 +408,16 @@ func (f *fx) enterLoop(li *loopInfo, edges []*edge) {
 			f.set(f.cur, k, n)
 			continue
 		}
-		f.set(f.cur, k, f.sc.fresh(k+"@loop", keySort(f.e, k)))
+		loopKeys = append(loopKeys, k)
 	}
+	for _, k := range loopKeys {
+		f.set(f.cur, k, f.freshHeap(k, "@loop", f.get(f.cur, "E:alloc")))
+	}
+	entryReach := f.curReach
 	f.curReach = f.sc.fresh(fmt.Sprintf("reach_loop%d", li.ord), "Bool")
+	// an arbitrary iteration is only reached through the loop entry: path facts about values
+	// defined before the loop stay valid
+	f.sc.assert(implies(f.curReach, entryReach))
 	for _, in := range li.head.Instrs {
 		phi, ok := in.(*ssa.Phi)
 		if !ok {
@@ -616,10 +655,11 @@ func (f *fx) exec(in ssa.Instruction, edges []*edge) {
 		v := f.term(x.X)
 		st := x.X.Type().Underlying().(*types.Struct)
 		info := f.e.sorts.structInfo[f.e.sorts.sortOf(x.X.Type())]
-		if info == nil {
-			unsupp("field of opaque struct value %s", x.X.Type())
-		}
 		_ = st
+		if info == nil {
+			f.vals[x] = termVal(f.opaqueField(v, x.X.Type(), x.Field))
+			return
+		}
 		f.vals[x] = termVal(app(info.FSorts[x.Field], info.Fields[x.Field], v))
 	case *ssa.IndexAddr:
 		idx := f.term(x.Index)
@@ -733,29 +773,7 @@ func (f *fx) exec(in ssa.Instruction, edges []*edge) {
 	case *ssa.Call:
 		f.vals[x] = f.doCall(x)
 	case *ssa.Defer:
-		key := f.deferKey(x)
-		var args []Val
-		for _, a := range x.Call.Args {
-			args = append(args, f.val(a))
-		}
-		var fnv Val
-		if x.Call.IsInvoke() {
-			fnv = f.val(x.Call.Value)
-		} else {
-			fnv = f.val(x.Call.Value)
-		}
-		// replace an earlier record of the same instruction (loops)
-		found := false
-		for _, d := range f.defers {
-			if d.instr == x {
-				d.args, d.fnv = args, fnv
-				found = true
-			}
-		}
-		if !found {
-			f.defers = append(f.defers, &deferRec{instr: x, key: key, args: args, fnv: fnv, ord: len(f.defers)})
-		}
-		f.set(f.cur, key, tTrue)
+		f.set(f.cur, f.deferKey(x), tTrue)
 	case *ssa.RunDefers:
 		f.runDefers()
 	case *ssa.Go:
@@ -799,6 +817,10 @@ func (f *fx) checkPanicValue(x *ssa.Panic) {
 	switch mi := x.X.(type) {
 	case *ssa.MakeInterface:
 		if types.Implements(mi.X.Type(), errT) {
+			okStatic = true
+		}
+	case *ssa.ChangeInterface:
+		if types.Implements(mi.X.Type(), errT) || isRecoveredValue(mi.X) {
 			okStatic = true
 		}
 	default:
